@@ -105,6 +105,13 @@ class E(opscalar.ScalarOp):
 
         """
         tau, T1, T2, g = common.map_arrays([tau, T1, T2, g])
+        # integer arrays (relaxation-time maps) would overflow in the powers of the derivative formulas
+        tau, T1, T2, g = [
+            np.asarray(arr, dtype=float)
+            if np.ndim(arr) > 0 and np.asarray(arr).dtype.kind in "iub"
+            else arr
+            for arr in (tau, T1, T2, g)
+        ]
         if np.any(np.asarray(tau) < 0):
             raise ValueError("Cannot have negative time")
 
